@@ -183,6 +183,7 @@ def run(prog, run):
     run.info(r5, hd.loc(), 'fallbackPair is set from non-STUN datagrams (unauthenticated by design; not among the property\'s state list)')
 
     r6_nomination(prog, run, hd, mk)
+    r7_shared(prog, run)
 
 
 def r6_nomination(prog, run, hd, mk):
@@ -234,3 +235,47 @@ def r6_nomination(prog, run, hd, mk):
             run.violation(rid, 'handleDatagram#nomination-lost#%s' % e['name'], hd.loc(),
                           'a USE-CANDIDATE request for a pair in %s neither nominates the pair, nor marks it as nominating, nor starts a nominating check: the '
                           'controlled agent never selects the pair the controlling agent nominated' % e['name'])
+
+
+def r7_shared(prog, run):
+    rid = run.rule('C15.R7', 'the integrity decision the ICE handler relies on compares the whole MAC (= C14.R8), and every datagram handed to the handler has exactly the '
+                             'length of the datagram that was received', floor=2)
+    dec = prog.fn('QXmppStunMessage::decode')
+    sub = type(run)(run.prop, run.tier, run.seed)
+    C14.r8(prog, sub, dec)
+    run.instance(rid)
+    if sub.violations:
+        v = sub.violations[0]
+        run.violation(rid, 'QXmppStunMessage::decode#partial-mac', v['site'], 'connectivity checks are authenticated by a partial MAC comparison: ' + v['what'])
+    else:
+        run.ok(rid, dec.loc(), 'MESSAGE-INTEGRITY is compared in full')
+    rr = prog.fn('QXmppUdpTransport::readyRead')
+    emits = [i for i, n in rr.calls() if rr.cname(n).endswith('::datagramReceived')]
+    reads = [i for i, n in rr.calls() if rr.cname(n).endswith('::readDatagram')]
+    if not emits or not reads:
+        raise AnalysisBroken('C15.R7: readDatagram / datagramReceived not found in QXmppUdpTransport::readyRead')
+    run.instance(rid)
+    buf = rr.nodes[rr.skip(rr.nodes[emits[0]]['args'][0])]
+    ok = False
+    why = 'the emitted buffer is not sized per datagram'
+    if buf['k'] == 'var':
+        # (a) resized to the pending size on every iteration, before the read
+        for i, n in rr.calls():
+            if rr.cname(n).endswith('::resize') and n.get('obj') is not None and rr.nodes[rr.skip(n['obj'])].get('decl') == buf.get('decl'):
+                same_block = rr.pos(i) and rr.pos(reads[0]) and rr.pos(i)[0] == rr.pos(reads[0])[0]
+                if 'pendingDatagramSize' in rr.fmt(n['args'][0], inline=True) and rr.node_dominates(i, reads[0]) and same_block:
+                    ok = True
+                elif 'pendingDatagramSize' in rr.fmt(n['args'][0], inline=True):
+                    why = 'the buffer is resized only on some iterations (kept when the next datagram is shorter): the tail of the previous datagram is delivered with it'
+        # (b) declared inside the loop with the datagram size
+        d = rr.defs().get(buf.get('decl'))
+        if d and d.get('init') is not None and 'pendingDatagramSize' in rr.fmt(d['init'], inline=True) and rr.pos(d['node']) and rr.pos(d['node'])[0] == rr.pos(reads[0])[0]:
+            ok = True
+    else:
+        t = rr.fmt(rr.nodes[emits[0]]['args'][0], inline=True)
+        if ('left(' in t or 'first(' in t or 'chopped(' in t) and 'readDatagram' in t:
+            ok = True     # emitted as buffer.left(<bytes read>)
+    if ok:
+        run.ok(rid, rr.loc(emits[0]), 'each datagram is delivered with its own length')
+    else:
+        run.violation(rid, 'QXmppUdpTransport::readyRead#datagram-length', rr.loc(emits[0]), why)
